@@ -330,6 +330,76 @@ class SplitTupleAssign(ast.NodeTransformer):
     visit_AsyncFunctionDef = visit_FunctionDef
 
 
+class RoundTripCopy(ast.NodeTransformer):
+    """`t = s` .. `s = t` in one block (what the inliner leaves of a helper that re-binds its parameter and hands it back): when s is
+    not touched in between, t is bound nowhere before, and neither name is re-bound after the copy back, t is s all along -- the
+    statements between work on s, both copies go away."""
+
+    def visit_FunctionDef(self, fn):
+        self.generic_visit(fn)
+        params = {a.arg for a in ast.walk(fn.args) if isinstance(a, ast.arg)}
+        nested = set()
+        for sub in ast.walk(fn):
+            if sub is not fn and isinstance(sub, (ast.FunctionDef, ast.AsyncFunctionDef, ast.Lambda, ast.ClassDef)):
+                nested |= {x.id for x in ast.walk(sub) if isinstance(x, ast.Name)}
+
+        def mentions(stmts, name, store_only=False):
+            for st in stmts:
+                for x in ast.walk(st):
+                    if isinstance(x, ast.Name) and x.id == name and (not store_only or isinstance(x.ctx, (ast.Store, ast.Del))):
+                        return True
+            return False
+
+        def order(fn_):
+            out = []
+
+            def rec(node):
+                for fld in ('body', 'orelse', 'finalbody'):
+                    blk = getattr(node, fld, None)
+                    if isinstance(blk, list) and blk and isinstance(blk[0], ast.stmt):
+                        out.append(blk)
+                        for st in blk:
+                            if not isinstance(st, (ast.FunctionDef, ast.AsyncFunctionDef, ast.ClassDef)):
+                                rec(st)
+                for h in getattr(node, 'handlers', []) or []:
+                    rec(h)
+            rec(fn_)
+            return out
+        changed = True
+        while changed:
+            changed = False
+            for blk in order(fn):
+                if blk is not fn.body:
+                    continue            # function level only: "before" and "after" are the statements of the body
+                for i, a in enumerate(blk):
+                    if not (isinstance(a, ast.Assign) and len(a.targets) == 1 and isinstance(a.targets[0], ast.Name) and isinstance(a.value, ast.Name)):
+                        continue
+                    t, s_ = a.targets[0].id, a.value.id
+                    if t == s_ or t in params or t in nested or s_ in nested:
+                        continue
+                    for j in range(i + 1, len(blk)):
+                        b = blk[j]
+                        if isinstance(b, ast.Assign) and len(b.targets) == 1 and isinstance(b.targets[0], ast.Name) and b.targets[0].id == s_ and \
+                                isinstance(b.value, ast.Name) and b.value.id == t:
+                            between, before, after = blk[i + 1:j], blk[:i], blk[j + 1:]
+                            if mentions(between, s_) or mentions(before, t) or mentions(after, t, True) or mentions(after, s_, True):
+                                break
+                            for x in ast.walk(fn):
+                                if isinstance(x, ast.Name) and x.id == t:
+                                    x.id = s_
+                            del blk[j]
+                            del blk[i]
+                            changed = True
+                            break
+                    if changed:
+                        break
+                if changed:
+                    break
+        return fn
+
+    visit_AsyncFunctionDef = visit_FunctionDef
+
+
 class CopyProp(ast.NodeTransformer):
     """`t = s` / `t1, t2 = (s1, s2)` with plain names on both sides, t bound once in the function, s a parameter or local whose stores
     all come before the copy (in the lowest block that holds both): t is another name for s.  The reads of t are rewritten to s and
@@ -1113,12 +1183,38 @@ class AliasInline(ast.NodeTransformer):
         return node
 
 
+_SCALAR_CALLS = {'int', 'float', 'str', 'len', 'abs', 'round', 'ord', 'chr', 'bool', 'hash', 'repr', 'bytes', 'format', 'hex', 'oct', 'bin'}
+
+
+def _evidently_scalar(e):
+    """a number / string by its form: with such a right operand `x <op> e` only succeeds for an immutable x"""
+    if isinstance(e, ast.Constant):
+        return isinstance(e.value, (int, float, complex, str, bytes))
+    if isinstance(e, ast.JoinedStr):
+        return True
+    if isinstance(e, ast.Call):
+        return isinstance(e.func, ast.Name) and e.func.id in _SCALAR_CALLS
+    if isinstance(e, ast.UnaryOp):
+        return _evidently_scalar(e.operand)
+    if isinstance(e, ast.BinOp):
+        if isinstance(e.op, (ast.Div, ast.FloorDiv, ast.Pow, ast.LShift, ast.RShift)):
+            return True
+        if isinstance(e.op, ast.Mod) and isinstance(e.left, ast.Constant) and isinstance(e.left.value, str):
+            return True
+        return _evidently_scalar(e.left) and _evidently_scalar(e.right) or \
+            (isinstance(e.op, (ast.Add, ast.Sub)) and (_evidently_scalar(e.left) or _evidently_scalar(e.right)) and
+             not any(isinstance(x, (ast.List, ast.Tuple, ast.Set, ast.Dict)) for x in (e.left, e.right)))
+    return False
+
+
 class ToAug(ast.NodeTransformer):
-    """`x = x + e` -> `x += e` (plain names; one spelling of an update)"""
+    """`x = x + e` -> `x += e` (plain names; one spelling of an update) -- only where x is evidently a number or a string: for a list,
+    a set or a dict `x += e` changes the object in place (every other name of it sees the change), `x = x + e` makes a new one"""
 
     def visit_Assign(self, node):
         if len(node.targets) == 1 and isinstance(node.targets[0], ast.Name) and isinstance(node.value, ast.BinOp) and \
                 isinstance(node.value.left, ast.Name) and node.value.left.id == node.targets[0].id and \
+                (isinstance(node.value.op, (ast.Div, ast.FloorDiv, ast.Pow, ast.LShift, ast.RShift, ast.Mod)) or _evidently_scalar(node.value.right)) and \
                 not any(isinstance(n, ast.Name) and n.id == node.targets[0].id for n in ast.walk(node.value.right)):
             return ast.copy_location(ast.AugAssign(target=ast.Name(id=node.targets[0].id, ctx=ast.Store()), op=node.value.op, value=node.value.right), node)
         return node
@@ -1401,6 +1497,7 @@ def simplify_tree(tree):
     tree = CounterInduction().visit(tree)
     tree = NextToLoop().visit(tree)
     tree = SplitTupleAssign().visit(tree)
+    tree = RoundTripCopy().visit(tree)
     tree = CopyProp().visit(tree)
     tree = FlagThread().visit(tree)
     tree = JoinNestedIf().visit(tree)
